@@ -146,3 +146,18 @@ def resolve_stack(probe, verdict, err=''):
         for m in re.finditer(r'#\d+ 0x[0-9a-f]+ in (\S+) (\S+?):(\d+)', err):
             frames.append((m.group(1), os.path.basename(m.group(2)), int(m.group(3))))
     return frames
+
+
+def confirm_hangs(probe, reqs, answers, suspicious, factor=6, jobs=4, skip=()):
+    """a wall-clock limit can fire on a busy machine before the code under test got going: re-run the requests whose `hang`
+    answer is suspicious (caller's predicate on (request, answer)) with a limit `factor` times longer; real hangs persist"""
+    idx = [i for i, (r, a) in enumerate(zip(reqs, answers)) if i not in skip and a is not None and a.startswith('hang') and suspicious(r, a)]
+    if not idx:
+        return answers, 0
+    again = run_probe(probe, [(reqs[i][0], reqs[i][1] * factor, reqs[i][2]) for i in idx], jobs=jobs)
+    out = list(answers)
+    changed = 0
+    for i, a in zip(idx, again):
+        if a is not None and not a.startswith('hang'):
+            out[i] = a; changed += 1
+    return out, changed
